@@ -79,8 +79,11 @@ fn run_rc_program(c: &Ctx, w: &'static World, t: usize, prog: &[u8]) {
                 }
             }
             2 => {
+                // the second share is released with Rc::finalize inside a critical section
                 if let Some(r) = w.rc[s1].try_take() {
-                    c.drop_rc(r);
+                    let g = c.pin();
+                    c.finalize(r, &g);
+                    c.unpin(g);
                 }
             }
             3 => {
